@@ -46,6 +46,9 @@ pub struct SpyState {
     pub log_enabled: bool,
     /// scripted momentum vectors (consumed front first); empty = delegate to the RNG
     pub gaussian_script: VecDeque<Vec<f64>>,
+    /// when the script is empty: produce a deterministic vector instead of consulting the RNG
+    /// (keeps the momentum seam owned even for calls the harness did not script explicitly)
+    pub gaussian_deterministic_fallback: bool,
     pub n_logp: u64,
     pub n_gaussian: u64,
     pub n_prods3: u64,
@@ -358,7 +361,16 @@ impl<F: CpuLogpFunc> Math for SpyMath<F> {
         dest: &mut Self::Vector,
         stds: &Self::Vector,
     ) {
-        let scripted = self.spy.borrow_mut().gaussian_script.pop_front();
+        let mut scripted = self.spy.borrow_mut().gaussian_script.pop_front();
+        if scripted.is_none() && self.spy.borrow().gaussian_deterministic_fallback {
+            let k = self.spy.borrow().n_gaussian as f64;
+            let n = self.inner.dim();
+            scripted = Some(
+                (0..n)
+                    .map(|i| ((i as f64 + 1.0) * 1.37 + k * 0.77).sin() * 1.1 + 0.05 * ((k + i as f64) * 0.3).cos())
+                    .collect(),
+            );
+        }
         let was_scripted = scripted.is_some();
         match scripted {
             Some(z) => {
